@@ -52,7 +52,21 @@ def only_metarize_writes_flags(ctx, rule='C17-R4'):
     fx = effects(ctx)
     p = ctx.project
     n = 0
-    for q, e in fx.all_events():
+    from sa.anchors import is_helper
+
+    def events():
+        # helpers are judged where they are used (a cast of the column in a table helper called by metarize is metarize's)
+        for q0 in sorted(p.funcs):
+            if is_helper(p, q0) or q0 not in fx.summ or '<locals>' in q0:
+                continue
+            seen = set()
+            for e0 in fx.deep_events(q0):
+                key = (id(e0.node), e0.kind)
+                if key in seen:
+                    continue
+                seen.add(key)
+                yield q0, e0
+    for q, e in events():
         if e.kind not in ('store', 'aug') or e.target is None:
             continue
         cols = {x[2] for x in T.walk(e.target) if T.tag(x) == 'col'} | {x[3] for x in T.walk(e.target) if T.tag(x) == 'cell'} | \
